@@ -184,9 +184,10 @@ struct reb_rotation reb_rotation_init_from_to(struct reb_vec3d from, struct reb_
     //  More than 90 degrees apart, do rotation in two stages:
     //  (from -> half), (half -> to) 
     struct reb_vec3d half = {.x=from.x+to.x, .y=from.y+to.y, .z=from.z+to.z};
+    const double half_length_squared = reb_vec3d_length_squared(half); // before normalizing: rounding residue has no meaningful direction
     half = reb_vec3d_normalize(half);
 
-    if (!isnormal(reb_vec3d_length_squared(half))) {
+    if (half_length_squared < 1e-16 || !isnormal(reb_vec3d_length_squared(half))) {
         //  half is nearly zero, so from and to point in nearly opposite directions
         //  and the rotation is numerically underspecified. Pick an axis orthogonal
         //  to the vectors, and use an angle of pi radians.
